@@ -8,6 +8,7 @@
 import PyndlProofs.Dict
 import PyndlProofs.Schedule
 import PyndlProofs.NdlSpec
+import PyndlProofs.NdlCall
 
 namespace Pyndl.C01
 open Pyndl List
@@ -88,6 +89,31 @@ theorem ndl_eq_spec (cfg : NdlCfg) (hper : 2 ≤ cfg.perFile) (hjob : 1 ≤ cfg.
       ∀ o c, w.get o c = rwLearn (fun _ => alpha) β₁ β₂ lam (fun _ _ => (0 : R)) es' o c :=
   ndlModel_eq_spec Generated.pyMagic Generated.pyVersion (by decide) (by decide) cfg hper hjob alpha β₁ β₂ lam
     es es' hp hfit
+
+/-- **the call itself** (`ndlCall`: `ndlModel` plus what `ndl.ndl` does on an event
+    file with zero events): for every NON-EMPTY event list — the property's
+    quantifier starts at one event — the call is `ndlModel`, hence the
+    specification.  This is the statement the correspondence run exercises (the
+    driver evaluates `ndlCall`). -/
+theorem ndl_call_eq_spec (cfg : NdlCfg) (hper : 2 ≤ cfg.perFile) (hjob : 1 ≤ cfg.perJob) (alpha β₁ β₂ lam : R)
+    (es es' : List (Event String String)) (hne : es ≠ [])
+    (hp : applyPolicyAll cfg.policy es = some es') (hfit : Fits32 es) :
+    ∃ w, ndlCall Generated.pyMagic Generated.pyVersion cfg alpha β₁ β₂ lam none es = .ok (w, es.length) ∧
+      ∀ o c, w.get o c = rwLearn (fun _ => alpha) β₁ β₂ lam (fun _ _ => (0 : R)) es' o c := by
+  rw [ndlCall_nonempty _ _ _ _ _ _ _ _ _ hne]
+  exact ndl_eq_spec cfg hper hjob alpha β₁ β₂ lam es es' hp hfit
+
+/-- **outside the quantifier, recorded because the learners differ there**: on an
+    event file with ZERO events the OpenMP method raises `IOError` (no chunk file
+    is written, the kernel entry point reports its initial error code), whereas
+    `dict_ndl` returns the weights it was given and the threading method returns
+    the empty matrix when called without `weights=` (`ndlCall_empty_threading`). -/
+theorem ndl_call_empty_openmp (cfg : NdlCfg) (hm : cfg.method = .openmp) (hper : 2 ≤ cfg.perFile)
+    (hjob : 1 ≤ cfg.perJob) (alpha β₁ β₂ lam : R) :
+    ndlCall Generated.pyMagic Generated.pyVersion cfg alpha β₁ β₂ lam none [] = .error .io := by
+  obtain ⟨w, hw, _⟩ := ndl_eq_spec cfg hper hjob alpha β₁ β₂ lam [] [] (by cases cfg.policy <;> rfl)
+    ⟨by decide, by decide, by decide, by intro e he; cases he⟩
+  exact ndlCall_empty_openmp _ _ cfg hm alpha β₁ β₂ lam none _ hw
 
 /-! Non-vacuity: a concrete 3-event sequence with a repeated cue, an outcome
 first seen late, an outcome-less event, β₁ ≠ β₂ and λ ≠ 1, evaluated in ℤ
